@@ -237,7 +237,8 @@ def cases(draw, kind):
                     case["dtype"], C, block).encode(chunk))
             else:
                 valid = cseg_spec.encode(chunk, block, order=draw(
-                    st.sampled_from(["tv", "vt"])), share=draw(st.booleans()))
+                    st.sampled_from(["tv", "vt"])), share=draw(st.booleans()),
+                    global_table=draw(st.integers(0, 3)) == 0)
             data, _ = mutate(draw, valid,
                              cseg_edit_points(valid, C, size, block))
     else:
@@ -296,7 +297,8 @@ def valid_cases(draw):
             "layout": {"order": draw(st.sampled_from(["tv", "vt"])),
                        "share": draw(st.booleans()),
                        "bump_bits": draw(st.booleans()),
-                       "reverse_table": draw(st.booleans())}})
+                       "reverse_table": draw(st.booleans()),
+                       "global_table": draw(st.integers(0, 3)) == 0}})
     elif kind == "raw":
         case.update({"dtype": draw(st.sampled_from(
             ["uint8", "uint16", "uint32", "uint64", "float32"])),
